@@ -182,7 +182,7 @@ def apply_fault(hist, step):
     # (fault steps leave the world as they found it): compute it once
     import json as _json
     key = (sum(1 for s_ in hist.steps[:-1] if s_['op'] not in (
-        'fault', 'placed', 'rejected', 'twin', 'probe_path')),
+        'fault', 'placed', 'rejected', 'cmdfail', 'twin', 'probe_path')),
         _json.dumps(step['job'], sort_keys=True), seed)
     cached = hist.mon_state.get('c02_ref')
     if cached and cached[0] == list(key):
